@@ -67,7 +67,7 @@ CLAIMED = {
                 "pointer clear-then-free exactly once. Tied to /repo by differential execution (closure over 3 shared + 2 weak + 2 "
                 "unique objects / 2 allocations, random histories over larger pools) comparing get/unique results, counters and the "
                 "interleaved malloc/free/clear-callback event log; ownership-ledger oracle.",
-        "note": TB + " The harness mirrors the two private structs to dump the counters (a layout change shows up as no-failing-input-found).",
+        "note": TB + " Translator tie (tools/c2lean_mem.py, Mem/Tie.lean, TieExec.lean): all 39 entry points of memory.h/memory.c and the array views are regenerated from the C AST on every run in the vocabulary of Mem/CPrim.lean and proved equal to the model, lifted to run_tie: every history of the model equals the history of the translated functions (side conditions NoSelfUp, SoftSmall, ManagedLive proved from the C05 invariant). The harness mirrors the two private structs to dump the counters.",
         "technique": "Lean 4 proof (ownership invariant by induction over operation lists, event-log structure) + model/implementation correspondence check",
     },
     "C14": {
@@ -80,7 +80,7 @@ CLAIMED = {
                 "the object empty. Tied to /repo by differential execution (closure over 3 objects / 2 buffers incl. an external one, "
                 "bounds from the boundary set incl. SIZE_MAX neighbours, allocation failures) comparing size, at/data as (block, "
                 "offset), abort/segv and the allocation log; in-bounds + lifetime oracle.",
-        "note": TB,
+        "note": TB + " Translator ties for all cstl_array_* functions (aAlloc_tie, aSlice_tie, aAt_tie, ...; Mem/Tie.lean); aSlice/aUnslice ties hold for live descriptors (the model checks liveness first), which the invariant provides on every reachable state.",
         "technique": "Lean 4 proof (invariant over operation lists with explicit 64-bit arithmetic) + model/implementation correspondence check",
     },
     "C20": {
@@ -92,7 +92,7 @@ CLAIMED = {
                 "(stamped_preserved, properly_moved_never_abort) over all C05/C14 histories. Tied to /repo by running the property's "
                 "own finite table on the real code (every entry point x argument position x object state {empty, owning, shared, "
                 "weak-only} x copy by assignment / memcpy: 40 aborting pairs) plus random histories; SIGABRT-expected oracle.",
-        "note": TB + " A bitwise copy moved back to the address stamped in its bytes is undetectable by construction and outside the property's domain (excluded by Op.dom and the generators).",
+        "note": TB + " Translator ties for the guarded-pointer functions and every entry point that uses them (gGet_tie, gSwap_tie, ...; unconditional). A bitwise copy moved back to the address stamped in its bytes is undetectable by construction and outside the property's domain (excluded by Op.dom and the generators).",
         "technique": "Lean 4 proof (stamp invariant, per-entry-point guard analysis) + exhaustive table execution on the implementation",
     },
     "C03": {
@@ -106,8 +106,14 @@ CLAIMED = {
                 "clear) for every in-range hash function. Tied to /repo by exact-state differential execution (closure over all "
                 "reachable table states in a small scope incl. resize during a pending resize, boundary bucket counts, random "
                 "histories to 64 buckets) comparing every chain in order with clean bits, counters, results, offers and the "
-                "hash-call log; address-keyed membership-ledger oracle.",
-        "note": TB,
+                "hash-call log; address-keyed membership-ledger oracle. Second layer (lean/Cstl/HashL): the chains as singly linked lists "
+                "through the node field embedded in the elements, the pointer-to-pointer erase walk, clean_bucket's relink loop, bucket "
+                "bounds checks — modelled at link level and proved to refine the list-level model operation by operation and for every "
+                "history of two tables (history_refines, history_exact: equal results, hash-call log, relocation count, events; never a "
+                "NULL dereference, out-of-bounds bucket or hang), compared with the real code on the same scripts; getBucket, the "
+                "relink loop, clean_bucket, the bucket foreach, erase and insert tails are regenerated from the C AST on every run and "
+                "tied by kernel-checked equalities (HashL.Tie).",
+        "note": TB + " The bucket array's realloc stays an oracle; find's prologue, the rehash sweep loops, foreach and the resize/shrink/clear bodies are tied to the link-level model by correspondence only.",
         "technique": "Lean 4 proof (inductive invariant, refinement to a multiset spec over operation lists) + exact-state correspondence check",
     },
     "C04": {
@@ -117,8 +123,9 @@ CLAIMED = {
                 "asks to stop, whose value is returned), also when visited elements erase themselves; clear hands every live element "
                 "to the callback once, empties the table, and clear-then-resize behaves as a fresh table. Tied to /repo as C03 with "
                 "the three enumeration entry points applied in every closure state, callbacks that erase+poison; per-address visit-"
-                "count oracle.",
-        "note": TB,
+                "count oracle. The link-level layer (lean/Cstl/HashL) proves the same for the pointer code (foreachConst_link_all, "
+                "clear_link_once, bucketWalk_sim with a callback erasing its own element).",
+        "note": TB + " See C03 for what the HashL translator ties cover.",
         "technique": "Lean 4 proof (refinement of the enumeration entry points to a list-level spec) + exact-state correspondence check",
     },
     "C19": {
@@ -129,8 +136,9 @@ CLAIMED = {
                 "the hash function exactly once with (fn, key, n), a keyed operation during a pending rehash relocates at most three "
                 "buckets, leaves all other chains untouched and advances the sweep, the rehash finishes within `count` keyed "
                 "operations (sharp bound proved too). Tied to /repo as C03, additionally comparing cstl_hash_load, the hash-call log "
-                "and the sweep index; load/single-call/relocation-count oracle.",
-        "note": TB,
+                "and the sweep index; load/single-call/relocation-count oracle. Link level (lean/Cstl/HashL): keyed_link_cost_and_progress, "
+                "settled_link_single_call, rehash_finishes_link for the pointer code.",
+        "note": TB + " See C03 for what the HashL translator ties cover.",
         "technique": "Lean 4 proof (progress measure on the sweep index, cost bound per operation) + exact-state correspondence check",
     },
     "C15": {
@@ -217,7 +225,10 @@ CLAIMED = {
                 "schedulers. Tied to /repo on every run: unmodified src/memory.c compiled against shadow <stdatomic.h>/<sched.h>/"
                 "<stdlib.h>, threads as coroutines switched at every atomic call, a covering set of schedules of all 2-thread and "
                 "selected 3/4-thread scenarios (every reachable transition) plus random schedules replayed on real code and model, "
-                "compared step by step (operation, location, observed value, events); ownership-ledger oracle + ASan.",
+                "compared step by step (operation, location, observed value, events); ownership-ledger oracle + ASan. Translator tie "
+                "(Conc/Tie.lean): the ordered atomic/shared-access skeleton of reset, weak-reset, share, weak-from, lock (with the spin) "
+                "and the unique-pointer reset is regenerated from the C AST of memory.c on every run, and stepT_conforms proves that every "
+                "micro-step of the model is the next access of that skeleton and branches on the observed value as the C code does.",
         "note": TB + " Theorems are about sequentially consistent interleavings; soundness for real executions rests on C11 DRF-SC "
                 "for seq_cst atomics (trusted) together with the proved race freedom. The shadow headers and the ucontext scheduler are trusted.",
         "technique": "Lean 4 proof (inductive invariant over all schedules, measure for progress) + per-step trace correspondence under a deterministic scheduler",
